@@ -84,6 +84,7 @@ static void run_one(int n, const EL &es, const Cfg &c) {
     if (c.heap) mcx::heap_end();
 #endif
     vector<string> kc; if (c.aspect != 2 && c.sizes) kc.push_back("aspect_rotation_nonsquare");
+    if (c.start == 2 && n >= 5) kc.push_back("collinear_start");   // every node centre initially on one line (degenerate for the stress layout)
     if (!why.empty()) ctx.violation(why, kc, desc, obs);
 }
 static void phase(int n, const vector<Cfg> &cfgs, const char *label) {
@@ -96,7 +97,7 @@ static void phase(int n, const vector<Cfg> &cfgs, const char *label) {
     }
 }
 int main(int argc, char **argv) {
-    ctx.init(argc, argv);
+    ctx.init(argc, argv); ctx.viol_cap = 1000000;   // every failing input is recorded (some known findings list specific inputs)
     bool T = ctx.thorough();
     vector<Cfg> links; for (int aca = 0; aca < 2; aca++) for (int na = 0; na < 2; na++) links.push_back({0, 0, (bool)aca, (bool)na, 0, 0});
     vector<Cfg> full; for (int st = 0; st < 3; st++) for (int sz = 0; sz < 2; sz++) for (int aca = 0; aca < 2; aca++) for (int na = 0; na < 2; na++) for (int as = 0; as < 3; as++) full.push_back({st, sz, (bool)aca, (bool)na, as, 0});
